@@ -32,6 +32,7 @@ inductive Sig
   | exportMissingPoint       -- a source point inside the range is not in the export
   | exportOutsideBlocks      -- an exported point belongs to no source block that overlaps the range
   | exportErrorOther         -- Export failed for no known reason
+  | bigRestoreDiffers        -- many-keys case: the restored shard reads / types its keys differently
   | badObservation           -- an answer that is no observation of its operation
 deriving Repr, DecidableEq
 
@@ -50,6 +51,7 @@ def Sig.name : Sig → String
   | .exportMissingPoint => "export-missing-point"
   | .exportOutsideBlocks => "export-outside-blocks"
   | .exportErrorOther => "export-error-other"
+  | .bigRestoreDiffers => "big-restore-differs"
   | .badObservation => "bad-observation"
 
 /-- "changed after t": modification time strictly later than `since`
@@ -185,6 +187,8 @@ def judge (recs : List Rec) : Op → Obs → List Sig × List Rec
   | .age _, .ok => ([], recs)
   | .age _, .badOp => ([], recs)
   | .dump, .dumped _ => ([], recs)
+  | .bigcase .., .big src dst => ((if src == dst then [] else [.bigRestoreDiffers]), recs)
+  | .bigcase .., .badOp => ([], recs)
   | _, _ => ([.badObservation], recs)
 
 /-- the chain check (full + incremental restore), a corollary clause that is not
